@@ -17,6 +17,7 @@ const (
 	vpTxSilent        = iota // never asks for the transaction
 	vpTxAccept               // getdata, then nothing (accepted)
 	vpTxAcceptTwice          // getdata sent twice (must be de-duplicated)
+	vpTxForeignReject        // getdata, then a reject (invalid) that names another transaction: says nothing about this one
 	vpTxRejectInvalid        // getdata, then reject: invalid
 	vpTxRejectMempool        // getdata, then reject: already in mempool
 	vpTxRejectFee            // getdata, then reject: insufficient fee
@@ -59,6 +60,11 @@ func vpQueryAllPeersHook(s *ChainService) vpAllPeersFn {
 			case vpTxAcceptTwice:
 				checkResponse(sp, getData, quit, peerQuit)
 				checkResponse(sp, getData, quit, peerQuit)
+			case vpTxForeignReject:
+				checkResponse(sp, getData, quit, peerQuit)
+				other := reject(wire.RejectInvalid, "bad-txns-inputs-missingorspent")
+				other.Hash[3] ^= 0x21
+				checkResponse(sp, other, quit, peerQuit)
 			case vpTxRejectInvalid:
 				checkResponse(sp, getData, quit, peerQuit)
 				checkResponse(sp, reject(wire.RejectInvalid, "bad-txns-inputs-missingorspent"), quit, peerQuit)
@@ -94,6 +100,9 @@ func VerifH_C15_verdict() {
 		}
 		if sc == vpTxRejectInvalid {
 			invalid++
+		}
+		if sc == vpTxForeignReject {
+			vpReach("reject-for-another-transaction")
 		}
 	}
 	s := &ChainService{quit: make(chan struct{}), broadcastTimeout: 1}
